@@ -20,6 +20,36 @@ def param(x):
     return float(x)
 
 
+def getter(m, kind):
+    """one public getter of a law object -> list of arrays (nested lists)"""
+    try:
+        if kind == "readC":
+            return [tolist(m.C)]
+        if kind == "readS":
+            return [tolist(m.S)]
+        if kind == "readSqrt":
+            a, b = m.Get_sqrt_C_S()
+            return [tolist(a), tolist(b)]
+        if kind == "readWalpole":
+            ci, Ei = m.Walpole_Decomposition()
+            return [tolist(np.asarray(ci, dtype=float)), tolist(Ei)]
+        if kind == "readHet":
+            return [[1.0 if m.isHeterogeneous else 0.0]]
+        if kind == "readLambda":
+            return [tolist(m.get_lambda())]
+        if kind == "readMu":
+            return [tolist(m.get_mu())]
+        if kind == "readBulk":
+            return [tolist(m.get_bulk())]
+        if kind == "readSimpl":
+            return [[float(len(m.simplification))], [1.0 if m.planeStress else 0.0]]
+        if kind == "readKt":
+            return [tolist(m.kt), tolist(m.Gt)]
+    except Exception as ex:  # noqa
+        return {"raises": "%s: %s" % (type(ex).__name__, str(ex)[:80])}
+    return {"raises": "unknown getter " + kind}
+
+
 def main():
     from EasyFEA.Models._utils import Get_Pmat, Apply_Pmat, KelvinMandel_Matrix
     from EasyFEA.Models.Elastic import _laws
@@ -68,12 +98,12 @@ def main():
     for c in req.get("lazy", []):
         try:
             cls = getattr(_laws, c["cls"])
-            held = {k: param(v) for k, v in c["init"].items()}      # the user's own objects
+            held = {k: (v if isinstance(v, bool) else param(v)) for k, v in c["init"].items()}      # the user's own objects
             m = cls(c["dim"], **held)
             reads, fresh = [], []
             for op in c["ops"]:
                 if op[0] == "set":                                   # a new object
-                    held[op[1]] = param(op[2])
+                    held[op[1]] = op[2] if isinstance(op[2], bool) else param(op[2])
                     setattr(m, op[1], held[op[1]])
                 elif op[0] == "set_copy":                            # an equal-valued copy
                     held[op[1]] = np.array(held[op[1]], dtype=float, copy=True) if isinstance(held[op[1]], np.ndarray) else float(held[op[1]])
@@ -86,11 +116,11 @@ def main():
                     setattr(m, op[1], held[op[1]])
                 elif op[0] == "notify":
                     m.Need_Update()
-                elif op[0] in ("readC", "readS"):
+                elif op[0].startswith("read"):
                     f = cls(c["dim"], **{k: (np.array(v, copy=True) if isinstance(v, np.ndarray) else v) for k, v in held.items()})
-                    reads.append(tolist(m.C if op[0] == "readC" else m.S))
-                    fresh.append(tolist(f.C if op[0] == "readC" else f.S))
-            out["lazy"].append({"reads": reads, "fresh": fresh, "final": {k: tolist(getattr(m, k)) for k in held}})
+                    reads.append(getter(m, op[0]))
+                    fresh.append(getter(f, op[0]))
+            out["lazy"].append({"reads": reads, "fresh": fresh})
         except Exception as ex:  # noqa
             out["lazy"].append({"raises": "%s: %s" % (type(ex).__name__, ex)})
     for c in req.get("boundary", []):
